@@ -314,8 +314,7 @@ Proof.
   - destruct t; cbn [tree_size] in Hsz; lia.
   - destruct (Hsub t (sub_refl t)) as [Hf Hps].
     destruct t as [f ps ks]. cbn [build]. cbn [r_f r_preds root_raw t_fields t_preds].
-    change (raw_id F (mkraw f p ps)) with (tid (Node f ps ks)).
-    rewrite Hf. cbn [t_preds t_kids] in Hps |- *.
+    rewrite raw_id_root_raw, Hf. cbn [t_preds t_kids] in Hps |- *.
     rewrite (dedup_z_nil_NoDup ps Hps). f_equal.
     rewrite map_map. rewrite <- (map_id ks) at 2. apply map_ext_in.
     intros k Hk. apply IH.
@@ -325,7 +324,7 @@ Qed.
 
 (* ---------- the roots ---------- *)
 
-Lemma filter_root_none idl p l i :
+Lemma filter_root_none idl l i :
   parents_closed (Some i) l -> In i idl -> incl (ids l) idl -> filter (is_root F idl) l = [].
 Proof.
   intros Hpc Hi Hincl. apply filter_none. intros r Hr. unfold is_root.
@@ -346,7 +345,7 @@ Proof.
   { intros j Hj. apply Hincl. apply in_or_app. left; exact Hj. }
   rewrite flat_plain_eq in Hk |- *. rewrite ids_cons, raw_id_root_raw in Hk.
   cbn [filter]. unfold is_root at 1. cbn [r_parent root_raw]. f_equal.
-  apply (filter_root_none idl None _ (tid k)).
+  apply (filter_root_none idl _ (tid k)).
   - apply parents_closed_fl.
   - apply Hk. left; reflexivity.
   - intros j Hj. apply Hk. right; exact Hj.
@@ -365,7 +364,7 @@ Proof.
   rewrite existsb_none
     by (eapply Forall_impl; [|exact Hall]; intros r [_ [_ Hr]]; exact Hr).
   assert (Hroots : map (build F (length all) all) (filter (is_root F (ids all)) all) = w).
-  { unfold all at 3. change (flatten_plain w) with (fl None w).
+  { unfold all at 4. change (flatten_plain w) with (fl None w).
     rewrite filter_root_forest by (intros j Hj; exact Hj).
     rewrite map_map. rewrite <- (map_id w) at 2. apply map_ext_in.
     intros k Hk. apply build_node.
@@ -374,11 +373,10 @@ Proof.
       + destruct (sub_in_flat t k Ht None) as [p' Hp'].
         rewrite Forall_forall in Hall.
         destruct (Hall (root_raw p' t) (in_fl None w k _ Hk Hp')) as [Hps _]. exact Hps.
-    - unfold all, flatten_plain. rewrite <- (forest_size_flat w None).
+    - change (length all) with (length (fl None w)). rewrite <- (forest_size_flat w None).
       exact (tree_size_le_forest w k Hk). }
   rewrite Hroots.
-  unfold all at 1, flatten_plain. rewrite <- (forest_size_flat w None).
-  fold (flatten_plain w). fold all.
+  change (length all) with (length (fl None w)). rewrite <- (forest_size_flat w None).
   rewrite Nat.eqb_refl. cbn [negb].
   replace (forallb (fun r => forallb (fun p => mem_z p (ids all)) (r_preds F r)) all) with true.
   - reflexivity.
